@@ -40,7 +40,9 @@ _counter = [0]
 
 def write_tmp(text, suffix=".pddl", newline=None):
     _counter[0] += 1
-    p = scratch_dir() / f"f{_counter[0]}{suffix}"
+    # two files out of three go to one fixed path per kind (an episode loop overwriting its output file):
+    # content remembered by path shows up as the previous file's
+    p = scratch_dir() / (f"f{_counter[0]}{suffix}" if _counter[0] % 3 == 0 else f"current{suffix}")
     with open(p, "wt", encoding="utf-8", newline="" if newline is None else newline) as f:
         f.write(text)
     return p
@@ -273,7 +275,7 @@ def project_problem(problem):
     """public attributes of a parsed Problem -> JSON in the spec's vocabulary"""
     init = State(problem.initial_state_predicates, problem.initial_state_fluents, is_init=True)
     goal_lits = [[g.name, list(g.grounded_objects)] for g in problem.goal_state_predicates]
-    goal_cmps = [sexp_reader.read(t.to_pddl()) for t in problem.goal_state_fluents]
+    goal_cmps = [sexp_reader.read(t.to_pddl(decimal_digits=8)) for t in problem.goal_state_fluents]
     return {"name": problem.name, "objs": sorted([o.name, o.type.name] for o in problem.objects.values()),
             "objs_keys_ok": all(k == o.name for k, o in problem.objects.items()),
             "init": project_state(init), "goal_lits": goal_lits, "goal_cmps": goal_cmps}
